@@ -1,6 +1,180 @@
+import EpsicProofs.FieldArith
 import EpsicModel.Cli
-/-! # C17 — the command-line simulator builds the requested model -/
+/-! # C17 — the command-line simulator builds the requested model and reports its theory
+
+`Cli.run` is the `getopt` loop of `src/epsic.cpp` over the (option, argument) pairs, `Cli.step` its body,
+`Cli.stackOf` is `mode_setup::setup_mode`.  The theorems hold for **every** sequence of options and every
+choice of the text-conversion leaves (`atof`, `atoi`, `sscanf`, the validity test). -/
+set_option linter.unusedVariables false
+set_option linter.unusedSectionVars false
 namespace Epsic.C17
 open Epsic Epsic.Cli
-theorem route_plain (s : String) (h : s.startsWith "B" = false) : route s = (false, s) := by simp [route, h]
+variable {α : Type} [Arith α]
+
+/-! ## `B`-prefix routing -/
+/-- one option whose argument starts with `B` leaves the first mode's setup untouched … -/
+theorem step_B_keeps_A (L : Leaves α) (c c' : Config α) (o : Char) (arg : String)
+    (hB : (route arg).1 = true) (h : step L c o arg = .ok c') : c'.a = c.a := by
+  unfold step at h
+  simp only [hB] at h
+  split at h <;> first
+    | (cases h; rfl)
+    | (split at h
+       · cases h
+       · split at h
+         · cases h
+         · cases h; simp [updSetup])
+    | (cases h; simp [updSetup])
+    | cases h
+/-- … and one whose argument does not leaves the second mode's setup untouched -/
+theorem step_plain_keeps_B (L : Leaves α) (c c' : Config α) (o : Char) (arg : String)
+    (hB : (route arg).1 = false) (h : step L c o arg = .ok c') : c'.b = c.b := by
+  unfold step at h
+  simp only [hB] at h
+  split at h <;> first
+    | (cases h; rfl)
+    | (split at h
+       · cases h
+       · split at h
+         · cases h
+         · cases h; simp [updSetup])
+    | (cases h; simp [updSetup])
+    | cases h
+
+/-- **arguments prefixed by `B` configure the second mode only**: whatever the sequence, if every
+argument in it is `B`-prefixed the first mode's setup is the one before -/
+theorem run_all_B_keeps_A (L : Leaves α) (args : List (Char × String)) (c c' : Config α)
+    (hall : ∀ p ∈ args, (route p.2).1 = true) (h : run L c args = .ok c') : c'.a = c.a := by
+  induction args generalizing c with
+  | nil => simp [run] at h; cases h; rfl
+  | cons p ps ih =>
+    obtain ⟨o, a⟩ := p
+    simp only [run] at h
+    cases hs : step L c o a with
+    | ok c1 =>
+      rw [hs] at h
+      have h1 := step_B_keeps_A L c c1 o a (hall (o, a) (by simp)) hs
+      rw [ih c1 (fun q hq => hall q (by simp [hq])) h, h1]
+    | invalidStokes => rw [hs] at h; cases h
+    | parseError => rw [hs] at h; cases h
+    | usage => rw [hs] at h; cases h
+/-- **unprefixed arguments configure the first mode only** -/
+theorem run_all_plain_keeps_B (L : Leaves α) (args : List (Char × String)) (c c' : Config α)
+    (hall : ∀ p ∈ args, (route p.2).1 = false) (h : run L c args = .ok c') : c'.b = c.b := by
+  induction args generalizing c with
+  | nil => simp [run] at h; cases h; rfl
+  | cons p ps ih =>
+    obtain ⟨o, a⟩ := p
+    simp only [run] at h
+    cases hs : step L c o a with
+    | ok c1 =>
+      rw [hs] at h
+      have h1 := step_plain_keeps_B L c c1 o a (hall (o, a) (by simp)) hs
+      rw [ih c1 (fun q hq => hall q (by simp [hq])) h, h1]
+    | invalidStokes => rw [hs] at h; cases h
+    | parseError => rw [hs] at h; cases h
+    | usage => rw [hs] at h; cases h
+
+/-- what each per-mode option writes, and where: the routed setup receives the converted value of the
+argument without its prefix -/
+theorem step_l (L : Leaves α) (c : Config α) (arg : String) :
+    step L c 'l' arg = .ok (updSetup c (route arg).1 (fun s => { s with beta := L.atof (route arg).2 })) := by
+  simp [step]
+theorem step_b (L : Leaves α) (c : Config α) (arg : String) :
+    step L c 'b' arg = .ok (updSetup c (route arg).1 (fun s => { s with smoothMod := L.atoi (route arg).2 })) := by
+  simp [step]
+theorem route_B (s : List Char) : route (String.ofList ('B' :: s)) = (true, String.ofList s) := by
+  simp [route]
+theorem step_r (L : Leaves α) (c : Config α) (arg : String) :
+    step L c 'r' arg = .ok (updSetup c (route arg).1 (fun s => { s with squareMod := L.atoi (route arg).2 })) := by
+  simp [step]
+/-! ## validity of `-s` -/
+/-- **a Stokes vector with `|p| > I` is rejected** wherever it appears, provided the options before it were accepted -/
+theorem run_rejects (L : Leaves α) (pre post : List (Char × String)) (c c1 : Config α) (arg : String) (v : Vec 4 α)
+    (hpre : run L c pre = .ok c1) (hscan : L.scan4 (route arg).2 = some v) (hbad : L.invalid v = true) :
+    ∃ o, run L c (pre ++ ('s', arg) :: post) = o ∧ (∀ cfg, o ≠ .ok cfg) := by
+  induction pre generalizing c with
+  | nil =>
+    simp only [run] at hpre; cases hpre
+    refine ⟨.invalidStokes, ?_, fun cfg h => by cases h⟩
+    simp [run, step, hscan, hbad]
+  | cons p ps ih =>
+    obtain ⟨o, a⟩ := p
+    simp only [run, List.cons_append] at hpre ⊢
+    cases hs : step L c o a with
+    | ok c2 => rw [hs] at hpre; simp only []; exact ih c2 hpre
+    | invalidStokes => rw [hs] at hpre; cases hpre
+    | parseError => rw [hs] at hpre; cases hpre
+    | usage => rw [hs] at hpre; cases hpre
+/-- **an accepted invocation contains only valid Stokes vectors** -/
+theorem run_ok_all_valid (L : Leaves α) (args : List (Char × String)) (c c' : Config α) (h : run L c args = .ok c') :
+    ∀ arg, ('s', arg) ∈ args → ∃ v, L.scan4 (route arg).2 = some v ∧ L.invalid v = false := by
+  induction args generalizing c with
+  | nil => intro arg hm; simp at hm
+  | cons p ps ih =>
+    obtain ⟨o, a⟩ := p
+    intro arg hm
+    simp only [run] at h
+    cases hs : step L c o a with
+    | ok c1 =>
+      rw [hs] at h
+      simp only [List.mem_cons, Prod.mk.injEq] at hm
+      rcases hm with ⟨rfl, rfl⟩ | hm
+      · simp only [step] at hs
+        cases hsc : L.scan4 (route arg).2 with
+        | none => simp [hsc] at hs
+        | some v =>
+          by_cases hb : L.invalid v = true
+          · simp [hsc, hb] at hs
+          · exact ⟨v, rfl, by simpa using hb⟩
+      · exact ih c1 h arg hm
+    | invalidStokes => rw [hs] at h; cases h
+    | parseError => rw [hs] at h; cases h
+    | usage => rw [hs] at h; cases h
+
+/-! ## the sample type: the last of several flags wins -/
+theorem last_dual_wins (L : Leaves α) (c : Config α) (f : String) :
+    (∃ c', step L c 'S' "" = .ok c' ∧ c'.dual = .superposed) ∧
+    (∃ c', step L c 'C' f = .ok c' ∧ c'.dual = .composite (L.atof f)) ∧
+    (∃ c', step L c 'D' f = .ok c' ∧ c'.dual = .disjoint (L.atof f)) ∧
+    (∃ c', step L c 'c' f = .ok c' ∧ c'.dual = .coherent (L.atof f)) := by
+  refine ⟨⟨{ c with dual := .superposed }, by simp [step], rfl⟩, ⟨{ c with dual := .composite (L.atof f) }, by simp [step], rfl⟩,
+    ⟨{ c with dual := .disjoint (L.atof f) }, by simp [step], rfl⟩, ⟨{ c with dual := .coherent (L.atof f) }, by simp [step], rfl⟩⟩
+
+/-! ## `setup_mode`: the decorator stack -/
+section stack
+variable {K : Type} [Field K] [DecidableEq K]
+/-- without `-l` and without `-k` nothing is modulated, whatever `-b` / `-r` say -/
+theorem stack_plain (s : Setup K) (h : s.beta = 0) : stackOf false s = .plain := by
+  simp [stackOf, h, fieldArith]
+/-- log-normal alone -/
+theorem stack_modulated (cov : Bool) (s : Setup K) (hb : s.beta ≠ 0) (h1 : s.smoothMod ≤ 1) (h2 : s.squareMod ≤ 1) :
+    stackOf cov s = .modulated s.beta := by
+  have e : Arith.eq0 s.beta = false := by simp [fieldArith, hb]
+  simp [stackOf, e, hb, Nat.not_lt.mpr h1, Nat.not_lt.mpr h2]
+/-- boxcar smoothing of the modulator -/
+theorem stack_boxcar (cov : Bool) (s : Setup K) (hb : s.beta ≠ 0) (h1 : 1 < s.smoothMod) (h2 : s.squareMod ≤ 1) :
+    stackOf cov s = .boxcar s.beta s.smoothMod := by
+  have e : Arith.eq0 s.beta = false := by simp [fieldArith, hb]
+  simp [stackOf, e, hb, h1, Nat.not_lt.mpr h2]
+/-- rectangular impulses, built on the unsmoothed modulator (so they replace a boxcar requested with them) -/
+theorem stack_square (cov : Bool) (s : Setup K) (hb : s.beta ≠ 0) (h2 : 1 < s.squareMod) :
+    stackOf cov s = .square s.beta s.squareMod := by
+  have e : Arith.eq0 s.beta = false := by simp [fieldArith, hb]
+  simp [stackOf, e, hb, h2]
+/-- a covariant mode without `-l` keeps the coordinator's default modulation index 1 -/
+theorem stack_covariant_default (s : Setup K) (hb : s.beta = 0) (h1 : s.smoothMod ≤ 1) (h2 : s.squareMod ≤ 1) :
+    stackOf true s = .modulated 1 := by
+  simp [stackOf, hb, fieldArith, Nat.not_lt.mpr h1, Nat.not_lt.mpr h2]
+end stack
+
+/-! non-vacuity: a concrete invocation -/
+def demoLeaves : Leaves ℚ where
+  atof s := if s == "0.5" then 1/2 else if s == "2" then 2 else 0
+  atoi s := if s == "3" then 3 else 0
+  scan4 s := if s == "1,0,0,0" then some (fun i => if i.val = 0 then 1 else 0) else none
+  invalid v := decide (v 0 < 0)
+example : ∃ c, run demoLeaves Config.default [('S', ""), ('l', "0.5"), ('l', "B2"), ('b', "B3")] = .ok c ∧
+    c.a.beta = 1/2 ∧ c.b.beta = 2 ∧ c.b.smoothMod = 3 ∧ c.a.smoothMod = 0 := by
+  refine ⟨_, rfl, ?_, ?_, ?_, ?_⟩ <;> decide +kernel
 end Epsic.C17
